@@ -109,7 +109,10 @@ pub fn replay(a: &Args) {
             continue;
         }
         if let (Some(t), Some(e)) = (renders.as_mut(), root.as_ref()) {
-            let opts = crate::render::option_tuples(&mut r, extra);
+            let mut opts = crate::render::option_tuples(&mut r, extra);
+            if a.get("opts").as_deref() == Some("two") {
+                opts = vec![opts.remove(0), opts.remove(2)];
+            }
             t.line(&crate::render::render_event(e, &opts, json!({"ops": ops})));
         }
     }
@@ -117,4 +120,102 @@ pub fn replay(a: &Args) {
     let rlines = renders.map(|t| t.finish()).unwrap_or(0);
     finish_report("api", cases.len(), &mismatches, a.get("mismatches"),
         json!({"steps": steps, "trace_events": lines, "render_events": rlines, "drift": drift, "drift_samples": drift_samples}));
+}
+
+/// a random operation over the name pools (paths are taken from the current tree)
+fn random_op(r: &mut Rng, root: &Element<String>, names: &[String], attrs: &[String], kinds: &[&str]) -> Value {
+    // walk down a random path
+    let mut path: Vec<String> = Vec::new();
+    let mut cur = root;
+    while !cur.children().is_empty() && r.chance(1, 2) && path.len() < 6 {
+        let i = r.below(cur.children().len());
+        let c = cur.children()[i].inner_t();
+        path.push(c.name.clone());
+        // get_child_mut addresses the first child with that name
+        cur = cur.get_child(&c.name).unwrap().inner_t();
+    }
+    let pathv: Vec<Value> = path.iter().map(|p| crate::render::chars(p)).collect();
+    let name = crate::render::chars(&names[r.below(names.len())]);
+    let mut al: Vec<String> = attrs.iter().filter(|_| r.chance(1, 4)).cloned().collect();
+    r.shuffle(&mut al);
+    match *r.pick(kinds) {
+        "add" => json!({"op": "add", "path": pathv, "name": name, "attrs": al.iter().map(|x| crate::render::chars(x)).collect::<Vec<_>>()}),
+        "optional" => json!({"op": "optional", "path": pathv, "name": name}),
+        "remove" => json!({"op": "remove", "path": pathv, "name": name}),
+        "merge" => json!({"op": "merge", "path": pathv, "attrs": al.iter().map(|x| json!({"t": if r.chance(1, 2) { "M" } else { "O" }, "v": crate::render::chars(x)})).collect::<Vec<_>>()}),
+        "multiple" => json!({"op": "multiple", "path": pathv}),
+        _ => json!({"op": "text", "path": pathv}),
+    }
+}
+
+/// impl -> spec: random operation sequences beyond the exhaustive bound; Op lines for ApiTrace and Render lines
+/// for RenderTrace
+pub fn record(a: &Args) {
+    let mut r = Rng::new(a.num("seed", 1));
+    let n = a.num("n", 100) as usize;
+    let maxops = a.num("ops", 60) as usize;
+    let extra = a.num("extra-opts", 1) as usize;
+    let with_remove = a.num("remove", 1) == 1;
+    let pool: Vec<String> = match a.get("pool") {
+        Some(p) => p.split(',').map(|s| s.to_string()).collect(),
+        None => ["a", "b", "c", "Item", "item", "ns:a", "x-y", "type", "text", "Foo"].iter().map(|s| s.to_string()).collect(),
+    };
+    let attrs: Vec<String> = ["p", "q", "id", "type", "xmlns:n", "n:q", "x-y", "text"].iter().map(|s| s.to_string()).collect();
+    let mut trace = a.get("trace").map(|p| Out::create(&p));
+    let mut renders = a.get("render-trace").map(|p| Out::create(&p));
+    let mut steps = 0usize;
+    let mut kinds: Vec<&str> = vec!["add", "add", "add", "optional", "merge", "multiple", "text"];
+    if with_remove {
+        kinds.push("remove");
+    }
+    for _ in 0..n {
+        let k = 2 + r.below(5);
+        let mut names = pool.clone();
+        r.shuffle(&mut names);
+        names.truncate(k.min(names.len()));
+        let first = json!({"op": "new", "name": crate::render::chars(&names[r.below(names.len())]), "attrs": []});
+        let mut root: Option<Element<String>> = None;
+        apply(&mut root, &first);
+        if let Some(t) = trace.as_mut() {
+            t.line(&json!({"ev": "Reset"}));
+            t.line(&json!({"ev": "Op", "op": first, "before": {"none": true},
+                           "after": crate::render::view_chars(&root.as_ref().unwrap().verif_view())}));
+        }
+        let nops = 1 + r.below(maxops);
+        let mut ops = vec![first];
+        for _ in 0..nops {
+            let op = random_op(&mut r, root.as_ref().unwrap(), &names, &attrs, &kinds);
+            let before = crate::render::view_chars(&root.as_ref().unwrap().verif_view());
+            let res = std::panic::catch_unwind(std::panic::AssertUnwindSafe(|| {
+                let mut rr = root.take();
+                apply(&mut rr, &op);
+                rr
+            }));
+            steps += 1;
+            match res {
+                Ok(rr) => root = rr,
+                Err(_) => {
+                    if let Some(t) = trace.as_mut() {
+                        t.line(&json!({"ev": "Panic", "op": op, "before": before}));
+                    }
+                    break;
+                }
+            }
+            ops.push(op.clone());
+            if let Some(t) = trace.as_mut() {
+                t.line(&json!({"ev": "Op", "op": op, "before": before,
+                               "after": crate::render::view_chars(&root.as_ref().unwrap().verif_view())}));
+            }
+        }
+        if let (Some(t), Some(e)) = (renders.as_mut(), root.as_ref()) {
+            let mut opts = crate::render::option_tuples(&mut r, extra);
+            if a.get("opts").as_deref() == Some("two") {
+                opts = vec![opts.remove(0), opts.remove(2)];
+            }
+            t.line(&crate::render::render_event(e, &opts, json!({"ops": ops})));
+        }
+    }
+    let lines = trace.map(|t| t.finish()).unwrap_or(0);
+    let rlines = renders.map(|t| t.finish()).unwrap_or(0);
+    println!("{}", json!({"kind": "api-trace", "events": lines, "render_events": rlines, "steps": steps, "sequences": n}));
 }
